@@ -78,19 +78,25 @@ def run(shard, rec):
                         fvals.append(x)
             vals = list(dict.fromkeys(fvals))[:24]
         as_list = rng.random() < 0.6
+        natural_marks = rng.random() < 0.5        # whole fixed-point inputs carry their integrality mark (same mark at every party), the others do not
+        if src[0] == 'fxp' and natural_marks:
+            rng.shuffle(vals)                     # whole and fractional values in any order within one list
         sseed = rng.randrange(1 << 30)
         policy = rng.choice(sim.POLICIES)
-        case = [shard['name'], list(src), list(dst), [str(v) for v in vals[:30]], as_list]
+        case = [shard['name'], list(src), list(dst), [str(v) for v in vals[:30]], as_list, natural_marks]
         if not rec.wants(case):
             continue
 
-        async def program(mpc, pid, src=src, dst=dst, vals=vals, as_list=as_list):
+        async def program(mpc, pid, src=src, dst=dst, vals=vals, as_list=as_list, natural_marks=natural_marks):
             S, D = mk_type(mpc, src), mk_type(mpc, dst)
             if src[0] == 'fxp':
-                xs = [S(float(v), integral=False) if pid == 0 else S(0.0, integral=False) for v in vals]
+                xs = [S(float(v) if pid == 0 else 0.0, integral=natural_marks and Fr(v).denominator == 1) for v in vals]
             else:
                 xs = [S(int(v)) if pid == 0 else S(0) for v in vals]
-            xs = mpc.input(xs, senders=0)
+            if src[0] == 'fxp' and natural_marks:
+                xs = [mpc.input(x, senders=0) for x in xs]      # one by one: each secure number keeps its own integrality mark
+            else:
+                xs = mpc.input(xs, senders=0)
             if as_list:
                 ys = mpc.convert(xs, D)
                 if len(xs) >= 1:                      # the caller updates its own list right after the call: the values as passed are converted
@@ -101,7 +107,7 @@ def run(shard, rec):
             ok_type = all(isinstance(y, D) for y in ys)
             out = await mpc.output(ys, raw=True)
             return [int(a) for a in out], ok_type
-        w = sim.World(m, t, no_prss, seed=sseed, policy=policy, history='auto').run(program)
+        w = sim.World(m, t, no_prss, seed=sseed, policy=policy, history='auto').run(program, cpu_seconds=90)
         res = w.ok_results()
         what = f'{shard["name"]} convert {src} -> {dst} ({"list" if as_list else "scalars"})'
         wit = {'src': src, 'dst': dst, 'vals': [str(v) for v in vals], 'policy': policy, 'sched_seed': sseed}
